@@ -7,6 +7,8 @@ import AdaVerif.Lemmas.Protocol
 import AdaVerif.Lemmas.AggHostSetter
 import AdaVerif.Lemmas.ParseAgg
 import AdaVerif.Lemmas.ParseBase
+import AdaVerif.Lemmas.ParseAggBase
+import AdaVerif.Lemmas.ParseValid
 import AdaVerif.Props.C10
 /-
 C04 — `ada::url` and `ada::url_aggregator` are observationally identical.
@@ -383,6 +385,26 @@ theorem href_agrees (idna : Idna) (L : Nat) (u : Url) (v : Bytes) (hid : ∀ d, 
         have h1 : ¬ getHrefSize (recOf n) > L := by omega
         simp [hlen, h1, view]
       · cases hr
+
+open AdaVerif.Model.ParseSpecial AdaVerif.Model.ParseAgg AdaVerif.Lemmas.PA AdaVerif.Lemmas.PAB in
+/-- **… and with a base** (`partial`: neither the base nor the input is a `file` URL - those routes of `machineBA` are run
+    against the implementation only): `copy_scheme`, `update_base_authority` (whose result is *not* the layout of any
+    content - credentials without their '@' - until `update_host_to_base_host` has run; the proof computes on the raw
+    buffer there), `update_base_port(retrieve_base_port())`, the path and search copies, `clear_search`, `shorten_path` on
+    the view with its conditional write-back, `consume_prepared_path` continuing on an inherited path, and the opaque
+    base with a lone fragment.  The base object is the layout of a record with the invariants of C19 whose user name has
+    no ':' and whose host does not start with '@' (`BaseRec`; true of every parsed record: `parsed_base_ok`). -/
+theorem parse_agrees_with_base_partial (idna : Idna) (r : AdaVerif.Model.UrlRec.Rec) (hb : BaseRec r) (input : Bytes)
+    (hnf : AdaVerif.Model.getSchemeType r.scheme ≠ 6)
+    (hin : ∀ name rest, schemeScan (prep input).1 = some (name, rest) → (parseSchemeNoOverride name).1 ≠ 6) :
+    machineBA idna (layout (toL r)) input = some (aggOf (machineB idna r input)) :=
+  machineBA_eq idna r hb input hnf hin
+
+open AdaVerif.Lemmas.PAB in
+/-- every record the Standard's parser hands out (no base) makes a good base object -/
+theorem parsed_base_ok (idna : Idna) (bi : Bytes) (b : Url) (h : parse idna bi none = some b) : BaseRec (recOf b) :=
+  baseRec_of b (AdaVerif.Lemmas.parse_inv idna bi none b (by intro x hx; cases hx) h)
+    (AdaVerif.Lemmas.PV.parse_noSlash idna bi b h) (parse_ch idna bi b h)
 
 /-- worked instances (kernel-evaluated): credentials over two '@', a port, dot segments, query and fragment; a file URL
     with a drive letter; a path-only URL of a scheme that is not special with the "/." guard; a failure -/
